@@ -1,7 +1,7 @@
 (* Custom engine (C28): case format, model of one case, the executable specification of C28 written from
    the property text (sections are *slots* that are never moved or removed, only marked dead or given new
    data; an id is the number of live slots before the slot — no Vec::remove / positional update as in the
-   model), the D09 classifier and the report evaluated on harness cases. *)
+   model) and the report evaluated on harness cases. *)
 From Coq Require Import List NArith Bool.
 Import ListNotations.
 From Orca Require Import Util Flat Custom.
@@ -125,26 +125,9 @@ Definition domain28 (c : ccase) : bool :=
   && forallb (fun o => match o with OAdd n _ => negb (N.eqb n NAME) | _ => true end) (cc_ops c)
   && match spec_run (cc_ops c) (spec_customs (cc_layout c)) with Some _ => true | None => false end.
 
-(* D09 (as far as custom sections are concerned): Module::parse panics on a valid module when
-   (a) a "producers" section has no field, or its first field cannot be read, or
-   (b) a name section names a local function whose code body comes later in the file.
-   Written as a scan over the layout that counts what precedes each section. *)
-Fixpoint d09_scan (nimp ncode : N) (l : list item) : bool :=
-  match l with
-  | [] => false
-  | IStd id n :: t =>
-      if N.eqb id 2 then d09_scan (nimp + n) ncode t
-      else if N.eqb id 10 then d09_scan nimp (ncode + n) t
-      else d09_scan nimp ncode t
-  | ICustom name _ info :: t =>
-      (match info with
-       | CNameOk fnames => N.eqb name NAME && existsb (fun i => negb (i <? nimp) && negb (i - nimp <? ncode)) fnames
-       | CProd 1 => N.eqb name PRODUCERS
-       | _ => false
-       end) || d09_scan nimp ncode t
-  end.
-Definition known_D09 (c : ccase) : bool := d09_scan 0 0 (cc_layout c).
-
+(* D09 (as far as custom sections are concerned) is repaired: Module::parse used to panic on a valid module when a
+   "producers" section had no field / an unreadable first field, or when a name section named a local function
+   whose code body came later in the file.  No known class is left. *)
 Definition verdict28 (c : ccase) : bool * bool * bool * list N :=
-  (agree c, domain28 c, holds28 c, if known_D09 c then [9] else []).
+  (agree c, domain28 c, holds28 c, []).
 Definition report_C28 := run_report verdict28.
